@@ -21,6 +21,7 @@ DfsOK(g, c) ==
     /\ NoDup(c.seq2) /\ SeqRange(c.seq2) = ReachFrom(g, c.t) \ SeqRange(c.seq)
     /\ NoDup(c.seq3) /\ SeqRange(c.seq3) = ReachFrom(g, c.t)
     /\ NoDup(c.seq4) /\ SeqRange(c.seq4) = ReachFrom(g, c.s)       \* foreign map, then reset
+    /\ NoDup(c.seq5) /\ SeqRange(c.seq5) = ReachFrom(g, c.s)       \* through Walker::iter (WalkerIter)
 \* DfsPostOrder: a node only after each successor that cannot reach it back
 PostOK(g, seq, s, already) ==
     /\ NoDup(seq) /\ SeqRange(seq) = ReachFrom(g, s) \ already
@@ -30,11 +31,14 @@ DpoOK(g, c) == /\ PostOK(g, c.seq, c.s, {}) /\ c.none_again
                /\ PostOK(g, c.seq2, c.t, SeqRange(c.seq))
                /\ PostOK(g, c.seq3, c.t, {})
                /\ PostOK(g, c.seq4, c.s, {})
+               /\ PostOK(g, c.seq5, c.s, {})
 \* Bfs: reachable nodes each once, in non-decreasing hop distance
 BfsOK(g, c) ==
     LET d == Dist(Unit(g), c.s) IN
     /\ NoDup(c.seq) /\ SeqRange(c.seq) = ReachFrom(g, c.s) /\ c.none_again
     /\ \A k \in 1 .. (Len(c.seq) - 1) : d[c.seq[k]] <= d[c.seq[k + 1]]
+    /\ NoDup(c.seq5) /\ SeqRange(c.seq5) = ReachFrom(g, c.s)
+    /\ \A k \in 1 .. (Len(c.seq5) - 1) : d[c.seq5[k]] <= d[c.seq5[k + 1]]
 \* Topo: exactly the nodes that are neither on nor downstream of a cycle, each after all its predecessors
 TopoOK(g, t) ==
     LET oncycle == {v \in Nodes(g) : v \in ReachPlus(g, v)}
